@@ -123,7 +123,7 @@ def gen_case(rng, big=False):
             e["attr"] = gen_attr(rng)
             e["entry_form"] = rng.choice(["tuple", "tuple", "list"])
         case["structure"] = entries
-        if len(entries) >= 2 and rng.random() < 0.1:      # unsorted: outside the positions hypothesis
+        if len(entries) >= 2 and rng.random() < 0.2:      # unsorted: outside the positions hypothesis
             for _ in range(5):
                 rng.shuffle(entries)
                 if not is_sorted_structure(case):
@@ -253,6 +253,25 @@ def cells(c):
     return c["n_features"] * c["n_samples"] if c.get("kind", "gen") == "gen" else c["num_features"] * c["size"]
 
 
+def drawn_matrix(trace):
+    return trace[0]["ans"] if len(trace) == 1 and trace[0].get("fn") == "randint" else None
+
+
+def rows_agree(model_rows, impl_rows, drawn, needle=30):
+    """The property speaks about the label.  The returned sample must be the recorded draw; in the needle column the
+    code today returns the label (target is a view of the sample) -- a copy that keeps the drawn value is equally
+    acceptable, so that column may carry either."""
+    if len(model_rows) != len(impl_rows) or drawn is None or len(drawn) != len(impl_rows):
+        return False
+    for m, g, d in zip(model_rows, impl_rows, drawn):
+        if len(m) != len(g) or len(d) != len(g):
+            return False
+        for j, (a, b) in enumerate(zip(m, g)):
+            if a != b and not (j == needle and b == d[j]):
+                return False
+    return True
+
+
 # ---------------------------------------------------------------- the check
 
 def check(run, replay):
@@ -379,8 +398,8 @@ def check(run, replay):
                 elif target != r["target"]:
                     direct[i].append(("C19_naive: label = 1 iff the drawn needle value (column 30) >= 40",
                                       "labels differ from the model's on the recorded draw"))
-                elif rows != r["sample"]:
-                    direct[i].append(("C19_naive: returned sample = the draw with the needle column overwritten",
+                elif not rows_agree(rows, r["sample"], drawn_matrix(r["trace"])):
+                    direct[i].append(("C19_naive: returned sample = the draw (needle column: the draw or the label)",
                                       "sample differs"))
                 else:
                     replayed += 1
@@ -392,7 +411,8 @@ def check(run, replay):
                     got = None
                 if status != 0:
                     broken.append((i, "task model status %d" % status))
-                elif r["header"] != want_header or got != rows or r["files"] != ["data.csv"]:
+                elif (r["header"] != want_header or got is None or r["files"] != ["data.csv"] or target != [g[-1] for g in got]
+                      or not rows_agree([m[:-1] for m in rows], [g[:-1] for g in got], drawn_matrix(r["trace"]))):
                     direct[i].append(("data.csv = header f0..f{n-1},label and one row per sample with its label",
                                       "header %s... files %s" % (r["header"][:3], r["files"])))
                 else:
